@@ -210,17 +210,23 @@ def may_join(sym, e, occ_encs):
 
 
 def gen_world(rng, max_side=5, max_agents=7, kinds=None, dead_prob=0.15):
-    """a random legal world description (state set directly)"""
+    """a random legal world description (state set directly).  About one world in sixteen is BIG: up to 14 rows
+    and columns, up to 15 agents (two-digit indices), up to 12 encodings -- what the small scopes never reach"""
+    big = rng.random() < 0.0625
+    if big:
+        max_side, max_agents = max(max_side, 14), max(max_agents, 15)
     rows, cols = rng.randint(1, max_side), rng.randint(1, max_side)
+    if big:
+        rows, cols = max(rows, rng.randint(8, max_side)), max(cols, rng.randint(1, max_side))
     if rng.random() < 0.15:
         rows = 1
     if rng.random() < 0.15:
         cols = 1
-    nenc = rng.randint(1, 3)
+    nenc = rng.randint(1, 12) if big else rng.randint(1, 3)
     encs = list(range(1, nenc + 1))
     overlap = gen_overlap(rng, encs)
     sym = closed(overlap)
-    n = rng.randint(1, max_agents)
+    n = rng.randint(9, max_agents) if big else rng.randint(1, max_agents)
     agents, state = [], []
     occ = {}
     for i in range(n):
